@@ -443,6 +443,30 @@ pub fn run_c03(out: &mut Out, rng: &mut Rng, thorough: bool, only: Option<&str>)
                 s.fin(g);
             }
         }
+        // one long-lived generator: hundreds of operations on the same object (tiny pieces, finalize fans,
+        // clones that are dropped again), the state exported after every one of them
+        {
+            s.new_gen(0);
+            let ops = if thorough { 900 } else { 260 };
+            for i in 0..ops {
+                match rng.below(12) {
+                    0 => s.fin(0),
+                    1 => {
+                        s.clone_gen(0, 1);
+                        if i % 3 == 0 {
+                            s.update(1, &rng.bytes(3));
+                            s.fin(1);
+                        }
+                    }
+                    _ => {
+                        let n = rng.range(0, 3) as usize;
+                        let d = rng.bytes(n);
+                        s.update(0, &d);
+                    }
+                }
+            }
+            s.fin(0);
+        }
         // runs of one byte value ("text followed by padding") with piece boundaries 0..5 bytes into a run
         for _ in 0..(if thorough { 12 } else { 3 }) {
             let mut data: Vec<u8> = Vec::new();
